@@ -344,6 +344,16 @@ func (s *alphSim) makeEvent(kind, level, variant int, seq uint64) *simEvent {
 		if kind != 5 {
 			e.attTok, e.attSym, e.attName, e.attDec = tok.ToHex(), meta.symbol, meta.name, int(dec)
 		}
+		if kind == 2 && (variant/2)%3 == 2 {
+			// the 32-byte symbol field holds other bytes, a run of zeros, and then the real symbol at
+			// its end: not what the token contract reports, however one strips padding
+			var f [32]byte
+			copy(f[:], "FAKE")
+			copy(f[32-len(s.tokens[tok.ToHex()].symbol):], s.tokens[tok.ToHex()].symbol)
+			e.payload = attestPayload(tok, byte(s.tokens[tok.ToHex()].decimals), string(f[:]), s.tokens[tok.ToHex()].name)
+			e.attSym = string(f[:])
+			s.stats.Fault("attestation-with-padded-forged-symbol")
+		}
 		if kind == 2 && (variant/2)%3 == 1 {
 			// the attestation layout followed by trailing bytes: still an attestation (payload id 2)
 			// claiming metadata the token contract does not report
@@ -427,6 +437,12 @@ func (s *alphSim) makeEvent(kind, level, variant int, seq uint64) *simEvent {
 		case 2:
 			e.targetChain = 0
 			targetV = u256("0")
+		}
+		if variant%4 == 3 {
+			// a message with an empty payload is legal (publishWormholeMessage is open to any payload)
+			e.payload = []byte{}
+			e.isTransfer = false
+			payloadV = bvec(e.payload)
 		}
 		if variant%16 == 7 {
 			// the largest legal consistency level (the token bridge only enforces a minimum)
@@ -1474,6 +1490,20 @@ func (s *alphSim) failingNodeEpilogue() {
 		s.mu.Unlock()
 		s.pump(s.now() + 8*s.poll)
 		s.stats.Probe("failing-node-epilogue")
+		// whatever the watcher did about the failing node, it must not hand old messages over again
+		s.mu.Lock()
+		for _, le := range s.govLog {
+			n := 0
+			for k, v := range s.delivered {
+				if strings.HasPrefix(k, fmt.Sprintf("%d/%s/poll", le.ev.id, le.block.hash)) && !strings.Contains(k, "/inc") {
+					n += v
+				}
+			}
+			if n > 1 {
+				s.violate("C09", "final-message-observed-twice", "event %d handed over %d times by the polling path (the second time after the node had started failing requests)", le.ev.id, n)
+			}
+		}
+		s.mu.Unlock()
 	}
 }
 
